@@ -362,6 +362,8 @@ def coq(e):
     if op == 'atan2': return '(atan2 %s %s)' % (coq(a[0]), coq(a[1]))
     if op == 'rpow': return '(Rpower %s %s)' % (coq(a[0]), coq(a[1]))
     if op == 'floor': return '(Rfloor %s)' % coq(a[0])
+    if op == 'trunc':                                 # added for C09: float -> int cast, truncation toward zero
+        x = coq(a[0]); return '(if Rleb 0 %s then Rfloor %s else (- Rfloor (- %s)))' % (x, x, x)
     if op == 'round': return '(Rround %s)' % coq(a[0])
     if op == 'fmod': return '(Rfmod %s %s)' % (coq(a[0]), coq(a[1]))
     if op == 'min': return '(Rmin %s %s)' % (coq(a[0]), coq(a[1]))
@@ -414,6 +416,7 @@ def evalf(e, env):
         elif op == 'atan2': r = math.atan2(ev(a[0]), ev(a[1]))
         elif op == 'rpow': r = ev(a[0]) ** ev(a[1])
         elif op == 'floor': r = float(math.floor(ev(a[0])))
+        elif op == 'trunc': r = float(math.trunc(ev(a[0])))
         elif op == 'round': r = float(_np.round(ev(a[0])))
         elif op == 'fmod':
             x, y = ev(a[0]), ev(a[1]); r = x - y * math.floor(x / y)
@@ -532,6 +535,16 @@ class T(_np.ndarray):
         return r
     def __setitem__(s, idx, v):
         if isinstance(idx, _np.ndarray) and idx.dtype == object:
+            # added for C18: x[mask] = scalar with a symbolic boolean mask of x's own shape is the
+            # elementwise choice  x_i := if mask_i then scalar else x_i  (no data-dependent shape)
+            if idx.shape == s.shape and not isinstance(v, _np.ndarray) and not isinstance(v, (B, CE)) \
+                    and all(isinstance(m, (B, bool, _np.bool_)) for m in _np.asarray(idx).reshape(-1)):
+                val = _lift(v)
+                flat_m = _np.asarray(idx).reshape(-1)
+                for k, ix in enumerate(_np.ndindex(*s.shape)):
+                    old = _np.ndarray.__getitem__(s, ix)
+                    _np.ndarray.__setitem__(s, ix, mk('ite', B.lift(flat_m[k]), val, _lift(old)))
+                return
             raise TraceError('assignment through a symbolic mask')
         if isinstance(v, _np.ndarray):
             v = _np.asarray(v, dtype=object)
@@ -554,10 +567,54 @@ class T(_np.ndarray):
         a = _np.asarray(s)
         if a.size == 1: return bool(a.reshape(-1)[0])
         raise TraceError('truth value of an array')
+    # ---- added for C15 (colour conversions): integer casts, clamp, max/min with indices
+    def long(s): return _ew1(_trunc, s) if _INT_CAST_TRUNCATES[0] else s
+    def int(s): return _ew1(_trunc, s) if _INT_CAST_TRUNCATES[0] else s
+    def clamp(s, min=None, max=None, **k): return _clamp(s, min=min, max=max)
+    def max(s, dim=None, keepdim=False, **k):
+        if dim is None: return _minmax('max')(s)
+        return _minmax_idx('max', s, dim, keepdim)
+    def min(s, dim=None, keepdim=False, **k):
+        if dim is None: return _minmax('min')(s)
+        return _minmax_idx('min', s, dim, keepdim)
+
+
+# ---- added for C09 (amplitude/phase helpers, SLM levels): float -> integer casts truncate toward zero.
+# T.int()/T.long() were introduced (C15) as the identity, which is right only for values already known to
+# be integers; recipes that need the cast itself trace inside `with int_casts_truncate():`.
+_INT_CAST_TRUNCATES = [False]
+
+
+class int_casts_truncate:
+    def __enter__(s): s.old = _INT_CAST_TRUNCATES[0]; _INT_CAST_TRUNCATES[0] = True; return s
+    def __exit__(s, *a): _INT_CAST_TRUNCATES[0] = s.old; return False
+
+
+def _trunc(e):
+    e = _lift(e)
+    if isinstance(e, CE): raise TraceError('integer cast of a complex value')
+    if e.is_const(): return const(math.trunc(Fraction(e.cval())))
+    return mk('trunc', e)
+
+
+def _np_int(x): return int(x)
+_np_int._int_dtype = True
+
+
+def _astype(s, dtype, *a, **k):
+    if getattr(dtype, '_int_dtype', False) or dtype is int or dtype in ('int', 'int32', 'int64', 'long'):
+        return _ew1(_trunc, s)
+    if dtype is float or dtype in ('float', 'float32', 'float64', 'double') or getattr(dtype, '_float_dtype', False):
+        return s
+    raise TraceError('astype(%r) is not known to the tracing shim' % (dtype,))
 
 
 def _lift(x):
     return x if isinstance(x, (E, CE, B)) else (CE.lift(x) if isinstance(x, complex) else E.lift(x))
+
+
+T.astype = _astype                                  # added for C09
+T.atan2 = lambda s, o: _atan2(s, o)                 # added for C09 (tensor.atan2(other))
 
 
 def wrap(a):
@@ -765,6 +822,70 @@ def _clamp(x, min=None, max=None, **k):
     return _ew1(f, x)
 
 
+# ---- added for C15 (colour conversions) -------------------------------------------------------
+def _minmax_idx(op, x, dim, keepdim=False):
+    """torch `x.max(dim)` / `x.min(dim)`: (values, indices); the index is that of the FIRST extremal
+    entry (torch's documented tie rule), expressed as a nest of `if` over strict comparisons with the
+    running extremum."""
+    a = _np.moveaxis(_np.asarray(x, dtype=object), dim, 0)
+    n = a.shape[0]
+    val = _np.empty(a.shape[1:], dtype=object); idx = _np.empty(a.shape[1:], dtype=object)
+    for p in _np.ndindex(*a.shape[1:]):
+        v = _lift(a[(0,) + p]); i = const(0)
+        for k in range(1, n):
+            e = _lift(a[(k,) + p])
+            c = cmp('lt', v, e) if op == 'max' else cmp('lt', e, v)
+            i = mk('ite', c, const(k), i)
+            v = mk(op, v, e)
+        val[p] = v; idx[p] = i
+    if keepdim:
+        val = _np.expand_dims(val, dim); idx = _np.expand_dims(idx, dim)
+    return wrap(val), wrap(idx)
+
+
+def _gather(x, dim, index, **k):
+    """torch.gather with a symbolic index: `if idx = 0 then x[0] else if idx = 1 then x[1] ... else x[n-1]`
+    (constant indices select directly)."""
+    a = _np.moveaxis(_np.asarray(x, dtype=object), dim, 0)
+    ix = _np.moveaxis(_np.asarray(index, dtype=object), dim, 0)
+    if a.shape[1:] != ix.shape[1:]:
+        raise TraceError('gather: index shape %r does not match input %r outside dim' % (ix.shape, a.shape))
+    n = a.shape[0]
+    out = _np.empty(ix.shape, dtype=object)
+    for p in _np.ndindex(*ix.shape):
+        i = _lift(ix[p]); q = p[1:]
+        if i.is_const():
+            j = int(i.cval())
+            if not 0 <= j < n: raise TraceError('gather: constant index %d out of range' % j)
+            out[p] = a[(j,) + q]; continue
+        r = _lift(a[(n - 1,) + q])
+        for j in range(n - 2, -1, -1):
+            r = mk('ite', cmp('eq', i, const(j)), _lift(a[(j,) + q]), r)
+        out[p] = r
+    return wrap(_np.moveaxis(out, 0, dim))
+
+
+def _matmul(a, b):
+    """torch.matmul / np.matmul semantics (batch broadcasting), unlike np.dot for >2-D operands"""
+    a = _np.asarray(a, dtype=object); b = _np.asarray(b, dtype=object)
+    if a.ndim <= 2 and b.ndim <= 2:
+        return _ret(_np.dot(a, b))
+    return _ret(_np.matmul(a, b))
+
+
+def _flatten_fn(x, start_dim=0, end_dim=-1):
+    a = _np.asarray(x, dtype=object)
+    nd = a.ndim; s = start_dim % nd; e = end_dim % nd
+    return wrap(a.reshape(a.shape[:s] + (-1,) + a.shape[e + 1:]))
+
+
+class _Unflatten:
+    def __init__(s, dim, sizes): s.dim, s.sizes = dim, tuple(int(v) for v in sizes)
+    def __call__(s, x):
+        a = _np.asarray(x, dtype=object); d = s.dim % a.ndim
+        return wrap(a.reshape(a.shape[:d] + s.sizes + a.shape[d + 1:]))
+
+
 def make_torch():
     t = _NS('torch')
     d = t.__dict__
@@ -833,6 +954,17 @@ def make_torch():
     d['logical_not'] = lambda a: ~wrap(a)
     d['isnan'] = lambda x: _ew1(lambda e: B('const', False), x)
     d['manual_seed'] = lambda *a: None
+    d['minimum'] = lambda a, b: _ew2(lambda u, v: mk('min', _lift(u), _lift(v)), a, b)      # added for C09
+    d['maximum'] = lambda a, b: _ew2(lambda u, v: mk('max', _lift(u), _lift(v)), a, b)      # added for C09
+    # added for C18: log2 x = ln x / ln 2
+    d['log2'] = lambda x: _ew1(lambda e: mk('/', mk('ln', _lift(e)), mk('ln', const(2))), x)
+    # added for C15
+    d['matmul'] = _matmul                       # identical to _dot for operands of at most 2 dimensions
+    d['gather'] = _gather
+    d['unbind'] = lambda x, dim=0: tuple(wrap(_np.take(_np.asarray(x, dtype=object), i, axis=dim)) for i in range(_np.asarray(x).shape[dim]))
+    d['flatten'] = _flatten_fn
+    nn = _NS('torch.nn'); nn.__dict__['Unflatten'] = _Unflatten
+    d['nn'] = nn
     return t
 
 
@@ -857,7 +989,10 @@ def make_numpy():
     d['pi'] = PI
     for k in ['float32', 'float64', 'complex64', 'complex128']:
         d[k] = (lambda x=None, **kw: x)
-    d['int64'] = d['int32'] = lambda x: int(x)
+    d['float32']._float_dtype = d['float64']._float_dtype = True      # (C09: T.astype(np.float64) is the identity)
+    d['int64'] = d['int32'] = _np_int              # (C09: marked as integer dtypes for T.astype)
+    d['minimum'] = lambda a, b: _ew2(lambda u, v: mk('min', _lift(u), _lift(v)), a, b)      # added for C09
+    d['maximum'] = lambda a, b: _ew2(lambda u, v: mk('max', _lift(u), _lift(v)), a, b)      # added for C09
     d['ndarray'] = _np.ndarray
     d['array'] = lambda x, *a, **k: wrap(_np.array(x, dtype=object).copy() if isinstance(x, _np.ndarray) else x)
     d['asarray'] = lambda x, *a, **k: x if isinstance(x, T) else wrap(x)
